@@ -77,3 +77,8 @@ Definition opt_str (o : option bytes) : bytes := match o with Some v => v | None
 Definition str_truthy (s : bytes) : bool := negb (bytes_eqb s []).
 Definition optstr_truthy (o : option bytes) : bool := match o with Some s => str_truthy s | None => false end.
 Definition py_split_comma (s : bytes) : list bytes := split_commas s.                     (* s.split(',') *)
+
+(* ---- sqlite.py: "select * from authkeys where ident=?" with the parameter bound, then fetchone(): the first row, in rowid
+   order, whose ident column equals the parameter *)
+Fixpoint sql_select_where_ident_eq (rows : list sqlrow) (i : bytes) : option sqlrow :=
+  match rows with [] => None | r :: t => if bytes_eqb (s_ident r) i then Some r else sql_select_where_ident_eq t i end.
